@@ -174,4 +174,56 @@ theorem locate_append : ∀ (p q : List Proj) (t : Ty) (o : Nat),
     | never => simp [locate]
     | leaf k s' a => simp [locate]
 
+/-- by-reference types are exactly the ones lowered to `Pointer`; by-value
+    types are lowered to a scalar or (zero-sized) to nothing -/
+theorem reference_iff_pointer (t : Ty) :
+    (isReferenceType t = some true ↔ lowerType t = .ok (some .pointer)) ∧
+    (isReferenceType t = some false →
+      lowerType t = .ok none ∨ (∃ s, lowerType t = .ok (some (.int s))) ∨ (∃ s, lowerType t = .ok (some (.float s)))) := by
+  have hz : sizeZero t = true → isReferenceType t = some false := by
+    intro h
+    unfold sizeZero at h
+    unfold isReferenceType
+    cases hl : layoutOf t with
+    | none => simp [hl] at h
+    | some l =>
+      simp [hl] at h
+      simp [h]
+  have hscalar : ∀ k s a, t = .leaf k s a → (k = .int ∨ k = .float) → isReferenceType t ≠ some true := by
+    intro k s a ht hk
+    subst ht
+    unfold isReferenceType
+    cases hl : layoutOf (.leaf k s a) with
+    | none => simp
+    | some l =>
+      simp only []
+      split
+      · simp
+      · rcases hk with rfl | rfl <;> simp
+  rcases lowerType_cases t with ⟨h0, h⟩ | ⟨h0, ⟨s, a, ht, h⟩ | ⟨s, a, ht, h⟩ | ⟨hr, h⟩ | ⟨hr, h⟩⟩
+  · have := hz h0
+    constructor
+    · constructor
+      · intro h'; rw [this] at h'; cases h'
+      · intro h'; rw [h] at h'; cases h'
+    · intro _; left; exact h
+  · constructor
+    · constructor
+      · intro h'; exact absurd h' (hscalar _ s a ht (Or.inl rfl))
+      · intro h'; rw [h] at h'; cases h'
+    · intro _; right; left; exact ⟨s, h⟩
+  · constructor
+    · constructor
+      · intro h'; exact absurd h' (hscalar _ s a ht (Or.inr rfl))
+      · intro h'; rw [h] at h'; cases h'
+    · intro _; right; right; exact ⟨s, h⟩
+  · constructor
+    · exact ⟨fun _ => h, fun _ => hr⟩
+    · intro h'; rw [hr] at h'; cases h'
+  · constructor
+    · constructor
+      · intro h'; rw [hr] at h'; cases h'
+      · intro h'; rw [h] at h'; cases h'
+    · intro h'; rw [hr] at h'; cases h'
+
 end RotoV.Layout
